@@ -39,7 +39,8 @@ def make_store_class(base):
     """Subclass of a real store adding: status history, fault plan, crash switch, seeded yields at async boundaries."""
 
     class FaultStore(base):  # type: ignore[misc, valid-type]
-        def vf_init(self, *, crash_at=None, crash_on=None, faults=None, yield_rnd=None, log=None):
+        def vf_init(self, *, crash_at=None, crash_on=None, faults=None, yield_rnd=None, log=None, latency=None):
+            self.vf_latency = latency  # virtual seconds every mutating store call takes (a networked store's round trip)
             self.vf_crash_at = crash_at  # crash right after the k-th successful append_tick (1-based)
             self.vf_crash_on = crash_on  # or a predicate name handled by the harness
             self.vf_crashed = False
@@ -57,6 +58,10 @@ def make_store_class(base):
             if self.vf_yield is not None:
                 for _ in range(self.vf_yield.choice([0, 0, 1, 2])):
                     await asyncio.sleep(0)
+            if self.vf_latency:
+                await asyncio.sleep(self.vf_latency)
+                if self.vf_crashed:
+                    raise Crash()
             n = self.vf_calls[method] = self.vf_calls.get(method, 0) + 1
             for f in self.vf_faults:
                 if f["method"] == method and f["from"] <= n < f["from"] + f["count"]:
